@@ -1091,7 +1091,7 @@ fn witness_cases(ctx: &mut Ctx) {
 fn main() {
     let mut ctx = Ctx::from_args("C09");
     witness_cases(&mut ctx);
-    let n = ctx.n(2000, 60000);
+    let n = ctx.n(2000, 30000);
     for _ in 0..n {
         quad_case::<f32>(&mut ctx);
         quad_case::<f64>(&mut ctx);
